@@ -14,7 +14,8 @@ EXPLANATION = (
     "for every serializer; every dynamically chosen exception class comes from getattr on builtins/errors/sqlite3 under an "
     "issubclass guard, from the exception whitelist under a membership guard, or is struct.error; the whitelist is filled "
     "only by the two module-level loops over builtins and Pyro5.errors under issubclass filters; imports inside decode "
-    "functions are limited to the package and sqlite3/marshal. Not decided: what the trusted third-party decoders can build, "
+    "functions are limited to the package and sqlite3/marshal; msgpack extension records go through ext_hook (unknown codes refused); "
+    "constructors reachable from the decoder do not inspect the values they wrap. Not decided: what the trusted third-party decoders can build, "
     "side effects of exception constructors."
 )
 
